@@ -121,5 +121,14 @@ CHECKS["C15"] = _mc("All interleavings (closed) of parent/child scenarios: async
     "invalid combinations, parent time-out while the child is blocked in a Wait / Task, parent inside Parallel (incl. a failing sibling) and Map; task-token callback streams through the real SendTaskSuccess / "
     "SendTaskFailure handlers (valid, duplicate, success-then-failure, forged, truncated, not base64, never, late, ordinary RPC reply before the callback, RPC error reply). M-child checks completion only once the child "
     "is terminal, documented field names and Output typing, States.TaskFailed with the child's error, token results / API answers, cancellation of what the child is blocked on; M-life / M-carry / M-drain ride along.")
+CHECKS["C18"] = {
+    "engine": "enumerator+explorer",
+    "text": "Exhaustive mutation enumeration: all single mutations (drop / rename field, retarget Next / Default / StartAt, retag Type, duplicate a state name across nesting levels, every wrong JSON type for every value) "
+            "of 12 well-formed seed machines plus a family of small JSON values go through the real StateLint.validate (must return a problem list, never raise); every mutant with no problems is run by the real engine "
+            "for 3 inputs x {task ok, task error} and must become terminal without an 'Illegal State Machine' failure or an escaping exception; mutants, JSON values as definitions and malformed event bodies are placed next "
+            "to two healthy executions and explored with deviation bound 2 (healthy results equal the reference, poison events acknowledged, nothing escapes).",
+    "note": ENUM + " " + SIM,
+    "technique": "exhaustive mutation enumeration + deviation-bounded explicit-state exploration of the implementation",
+}
 NA = {}
 NOTES = "All checks run the real code of /repo's working tree (imported by path) over /verif/sim; see DESIGN.md."
